@@ -8,6 +8,7 @@ import (
 	"math/big"
 	"sort"
 	"strings"
+	"time"
 
 	"golang.org/x/tools/go/ssa"
 )
@@ -49,6 +50,7 @@ type JobConfig struct {
 	Concrete   bool     `json:"concrete,omitempty"`
 	Vector     []uint64 `json:"vector,omitempty"`
 	WitnessFor []string `json:"witness_for,omitempty"`
+	WallMs     int      `json:"wall_ms,omitempty"`
 }
 
 type JobResult struct {
@@ -97,9 +99,11 @@ type Exec struct {
 	extT    types.Type
 	tokens  map[string]*Opaque
 	vecPos  int
+	deadline time.Time
 }
 
 type pathEnd struct{ reason string }
+type jobTimeout struct{}
 
 const moduleName = "github.com/free5gc/ike"
 
@@ -850,6 +854,9 @@ func (ex *Exec) step(st *State) {
 	}
 	st.steps++
 	ex.res.Steps++
+	if ex.res.Steps&1023 == 0 && !ex.deadline.IsZero() && time.Now().After(ex.deadline) {
+		panic(jobTimeout{})
+	}
 	if ex.cfg.MaxSteps > 0 && st.steps > ex.cfg.MaxSteps {
 		panic(engineErr("step bound exceeded on one path (%d)", ex.cfg.MaxSteps))
 	}
